@@ -11,9 +11,9 @@ TReset == Ev("reset") /\ k' = LInit(e.sc.idle_us, e.sc.lingers)
 TDgram == Ev("dgram") /\ k' = NetSent(k, IF e.dir = "c2s" THEN "cli" ELSE "srv", e.t)
 TDlv == Ev("dlv") /\ k' = NetDelivered(k, IF e.dir = "c2s" THEN "srv" ELSE "cli", e.t)
 TUndeliverable == Ev("undeliverable") /\ k' = k
-TQ == Ev("q") /\ k' = (CASE e.name = "connection_state_updated" -> StateUpdated(k, e.side, e.old, e.new)
-                         [] e.name = "connection_closed" -> ConnectionClosed(k, e.side)
-                         [] e.name = "packet_sent" -> PacketSent(k, e.side, e.carries_data, e.t)
+TQ == Ev("q") /\ k' = (CASE e.name = "connection_state_updated" -> StateUpdated(k, e.side, e.gid, e.old, e.new, e.t)
+                         [] e.name = "connection_closed" -> ConnectionClosed(k, e.side, e.gid)
+                         [] e.name = "packet_sent" -> PacketSent(k, e.side, e.gid, e.carries_data, e.t)
                          [] OTHER -> k)
 TApp == Ev("app") /\ k' = (CASE e.op = "close" -> AppClose(k, e.side, e.t)
                              [] e.op = "terminated" -> Terminated(k, e.side, e.t)
